@@ -200,6 +200,8 @@ class Engine:
         if not self.prune:
             return True
         s = z3.Solver()
+        # wall-clock budget: under heavy load a check may time out, the path is then kept (sound: more obligations, never fewer).
+        # (A deterministic rlimit was tried: string-heavy path conditions then cost seconds per check and C04 went from 230 s to 800 s.)
         s.set("timeout", 300)
         for a in self.axioms_light():
             s.add(a)
@@ -443,10 +445,12 @@ class Engine:
             return SV(INT, z3.If(val.v, I(1), I(0)), val.none)
         if val.ty.kind == "str" and ty.kind == "obj" and ty.cls in ("TokenOrStr", "str", None):
             # a plain str stored in an object-typed container: the (value-determined) str object str_box(s)
-            if not getattr(self, "_box_axiom", False):
-                self._box_axiom = True
+            if getattr(self, "_box_axiom", None) is None:
+                # added for the function being verified only (verify_function drops it again): a quantified string axiom in the
+                # background of every later obligation made unrelated resolve.py obligations unstable
                 bs = z3.String("q_box_s")
-                self.axioms.append(z3.ForAll([bs], And(class_of(STR_BOX(bs)) == STR_CID, strval(STR_BOX(bs)) == bs), patterns=[STR_BOX(bs)]))
+                self._box_axiom = z3.ForAll([bs], And(class_of(STR_BOX(bs)) == STR_CID, strval(STR_BOX(bs)) == bs), patterns=[STR_BOX(bs)])
+                self.axioms.append(self._box_axiom)
             return SV(ty, STR_BOX(val.v), val.none)
         if val.ty.kind == ty.kind and val.ty.kind in ("seq", "tuple", "dict", "set"):
             try:
